@@ -71,7 +71,7 @@ def run(c):
     c.add_tlc(sd, "syntax trees with one required pair of parentheses dropped; generation")
     d = os.path.join(vf.WORK, "parse")
     targets = os.path.join(d, "targets.ndjson")
-    vf.gv(["accepts", sd["out"], targets, 5 if c.quick else 1], timeout=3000)
+    vf.gv(["accepts", sd["out"], targets, 8 if c.quick else 1], timeout=3000)
     tg = [json.loads(l) for l in open(targets) if l.strip()]
     if tg:
         mo = os.path.join(d, "member.out")
